@@ -549,8 +549,12 @@ func ruleAllocTriple(c *Ctx) []Ob {
 					if !ok || typ != "sliceHeader" || fn.Name() == "Zero" {
 						continue
 					}
-					_ = recv
 					key := shortFn(fn) + ":header." + f
+					// the empty header written out (what (*sliceHeader).Zero does): {zerobase, 0, 0} on one receiver in one block
+					if emptyHeaderIn(b, recv) {
+						s.ok(key, c.InstrPos(x), "part of the empty header {zerobase, 0, 0}")
+						continue
+					}
 					switch f {
 					case "Data":
 						good := false
@@ -855,6 +859,39 @@ func domCondsKindOnly(b *ssa.BasicBlock) []Cond {
 		out = append(out, cd)
 	}
 	return out
+}
+
+// emptyHeaderIn: block b stores Data = zerobase, Len = 0 and Cap = 0 into the slice header recv (and nothing else into it).
+func emptyHeaderIn(b *ssa.BasicBlock, recv ssa.Value) bool {
+	data, ln, cp := false, false, false
+	for _, ins := range b.Instrs {
+		st, ok := ins.(*ssa.Store)
+		if !ok {
+			continue
+		}
+		r2, typ, f, ok := fieldOf(st.Addr)
+		if !ok || typ != "sliceHeader" || r2 != recv {
+			continue
+		}
+		switch f {
+		case "Data":
+			if path(st.Val) != "reflect.zerobase" {
+				return false
+			}
+			data = true
+		case "Len":
+			if v, ok := constInt(st.Val); !ok || v != 0 {
+				return false
+			}
+			ln = true
+		case "Cap":
+			if v, ok := constInt(st.Val); !ok || v != 0 {
+				return false
+			}
+			cp = true
+		}
+	}
+	return data && ln && cp
 }
 
 // ---------------------------------------------------------------- header shape of string / binary destinations
